@@ -377,8 +377,17 @@ class Pyscf(Case):
         return out
 
 
+class MakeContr(__import__("checks.c19", fromlist=["MakeContr"]).MakeContr):
+    """make_contractions: shells at each atom's coordinates in atom order with the requested coordinate types (list /
+    tuple / str), atom index, arguments unaltered, repeated call with the same objects (shared with C19)"""
+
+    prop = "C18"
+
+
 def cases(tier, seed=0):
     out = []
+    for kind in ("list", "tuple", "str"):
+        out.append(MakeContr(kind=kind))
     for fmt in ("nwchem", "gbs"):
         for pre in PRE:
             out.append(Skeleton(fmt=fmt, pre=pre, gap=4, lead=0, style="plain"))
